@@ -171,3 +171,50 @@ Theorem C06_text_roundtrip_first_repair_refuted :
   (match segment (quote_text (B "{}}")) with Some l => segs_value l | None => None end) = Some (B "{}}").
 Proof. exact roundtrip_v1_refuted. Qed.
 Print Assumptions C06_text_roundtrip_first_repair_refuted.
+
+(* ---- the lexer seam ------------------------------------------------------------------------------------------ *)
+From PV Require Import Proofs.C06SeamProofs Proofs.C06SeamCompile.
+
+(* ALL token lists whose tokens are well-formed (a text holds no "{{" and does not end in "{"; an action is
+   its delimiters, with the trim markers the token says, around a body in which every "}", quote and line end
+   lies inside a closed "..." literal, that does not begin like a comment or a trim marker and does not end in
+   a blank before " -}}" or in "-" before "}}"): the byte-level lexer (Tmpl/Lexer.v) run on the printed text
+   delivers exactly the token-level view of Tmpl/IR.v -- neighbouring texts merged, white space trimmed where
+   the markers say, empty texts dropped, the action bodies cut at the right places *)
+Theorem C06_lexer_seam_wf : forall ts : list tok,
+  wf_toks ts -> segment (show_toks ts) = Some (map seg_of_tok (lexed ts)).
+Proof. exact seam_wf. Qed.
+Print Assumptions C06_lexer_seam_wf.
+
+(* ALL programs, every node kind (tags with attributes and &attributes, text, buffered/unbuffered code with
+   declarations, assignments and JS if/else, conditionals, case, each, while, mixin definitions, calls and
+   blocks, doctype, blocks, comments), production AND debug mode: every token the compiler emits -- the main
+   template, the mixin blocks and the mixin definitions -- is well-formed.  Domain (node_dom): expressions of
+   any shape and depth whose float literals are numbers and whose template literals have no double quote,
+   backslash or line feed in their literal parts; a buffered string literal does not end in "{"; an element
+   name does not end in "{" *)
+Theorem C06_compile_wf : forall (funcs : list bytes) (debug : bool) (nodes : list pnode) (ts : list tok),
+  forallb node_dom nodes = true -> compile funcs debug nodes = Some ts -> wf_toks ts.
+Proof. exact compile_wf. Qed.
+Print Assumptions C06_compile_wf.
+
+(* hence THE SEAM for every compiled program of that domain: what the lexer makes of the emitted template
+   source is what the token-level model (parse_program, the executor model) works on *)
+Theorem C06_lexer_seam_partial : forall (funcs : list bytes) (debug : bool) (nodes : list pnode) (ts : list tok),
+  forallb node_dom nodes = true -> compile funcs debug nodes = Some ts ->
+  segment (show_toks ts) = Some (map seg_of_tok (lexed ts)).
+Proof. exact lexer_seam. Qed.
+Print Assumptions C06_lexer_seam_partial.
+
+(* each of the four exclusions is forced: a program that violates only that one compiles, and the lexer cuts
+   the emitted source differently from the token view (or rejects it).  The first is a defect of the code
+   (F-C06-f: `= "a{"` followed by `= p` emits a{{{$p | __pug__html}}; the real engine fails to load it), the
+   fourth too (a template literal with a double quote in its literal part: unterminated quoted string); the
+   second is outside the pug grammar, the third an artefact of the model's JNumF *)
+Theorem C06_lexer_seam_refuted :
+  (exists ts, compile [] false prog_str_brace = Some ts /\ segment (show_toks ts) <> Some (map seg_of_tok (lexed ts))) /\
+  (exists ts, compile [] false prog_name_brace = Some ts /\ segment (show_toks ts) <> Some (map seg_of_tok (lexed ts))) /\
+  (exists ts, compile [] false prog_numf = Some ts /\ segment (show_toks ts) <> Some (map seg_of_tok (lexed ts))) /\
+  (exists ts, compile [] false prog_tpl_quote = Some ts /\ segment (show_toks ts) <> Some (map seg_of_tok (lexed ts))).
+Proof. exact lexer_seam_refuted. Qed.
+Print Assumptions C06_lexer_seam_refuted.
